@@ -29,8 +29,18 @@ LR == L \cup {"static"}             \* ... in the return type (no elision in ret
 \*   opqlt  &'1 OpLt<'2>         (implies '2: '1)
 \*   st1    St1<'1>              st2    St2<'1,'2>             st2b   St2b<'1,'2>  (definition: 'q: 'p, i.e. '2: '1)
 \*   nst2   Nst2<'1,'2>          a struct whose fields are themselves borrowing structs (St1<'p>, St2<'q,'q>)
+\*   stv    StV<'1,'2>           { f: &'p OpLt<'q>, s: DiplomatSlice<'q, u8> }: one field mentions BOTH lifetimes; the field's type
+\*                               implies 'q: 'p on the definition (inferred by Rust, and by Diplomat: it must be restated)
 Slots(k) == IF k \in {"opq", "optopq", "slice", "st1"} THEN 1 ELSE 2
-IsStruct(k) == k \in {"st1", "st2", "st2b", "nst2"}
+IsStruct(k) == k \in {"st1", "st2", "st2b", "nst2", "stv"}
+\* the struct definitions as data: for every field, which definition lifetimes its type mentions.  A host object made from a
+\* struct must hold on to field f for as long as anything borrowing for lifetime l lives, for every l that f's type mentions.
+StructFields == [st1  |-> <<[n |-> "f", lts |-> {"p"}]>>,
+                 st2  |-> <<[n |-> "f", lts |-> {"p"}], [n |-> "g", lts |-> {"q"}]>>,
+                 st2b |-> <<[n |-> "f", lts |-> {"p"}], [n |-> "g", lts |-> {"q"}]>>,
+                 nst2 |-> <<[n |-> "a", lts |-> {"p"}], [n |-> "b", lts |-> {"q"}]>>,
+                 stv  |-> <<[n |-> "f", lts |-> {"p", "q"}], [n |-> "s", lts |-> {"q"}]>>]
+FieldsFor(k, l) == {StructFields[k][i].n : i \in {j \in 1..Len(StructFields[k]) : l \in StructFields[k][j].lts}}
 EdgeKind(k) == IF k = "slice" THEN "slice" ELSE IF IsStruct(k) THEN "struct" ELSE "opaque"
 DefLt(k, i) == IF i = 1 THEN "p" ELSE "q"           \* names of the struct definitions' lifetimes
 \* return kinds:  ropq &'1 Opq | roptopq Option<&'1 Opq> | rslice &'1 str | rbox Box<OpLt<'1>> | rst1 St1<'1>
@@ -61,7 +71,7 @@ RefImplied(s) ==
   \cup (IF s.self.kind = "sf2b" THEN {<<s.self.slots[2], s.self.slots[1]>>, <<s.self.slots[3], s.self.slots[1]>>} ELSE {})
 \* bounds written on the definitions of the types used, instantiated at the use
 DefImplied(s) ==
-  {<<s.params[i].slots[2], s.params[i].slots[1]>> : i \in {j \in 1..Len(s.params) : s.params[j].kind = "st2b"}}
+  {<<s.params[i].slots[2], s.params[i].slots[1]>> : i \in {j \in 1..Len(s.params) : s.params[j].kind \in {"st2b", "stv"}}}
   \cup (IF s.self.kind = "sf2b" THEN {<<s.self.slots[3], s.self.slots[2]>>} ELSE {})
 Named(R) == {pr \in R : pr[1] \in L /\ pr[2] \in L /\ pr[1] # pr[2]}
 RECURSIVE TC(_)
